@@ -37,9 +37,12 @@ def classify(a, b, st, detail, ns):
     if st == "ERROR":
         return "error:" + detail.split(":")[0]
     ua, ub = eval(a, ns), eval(b, ns)
+    dimless = {f for u in (ua, ub) for f, e in u.factors.items() if f.dimension is measured.Number and f is not measured.One}
     neg_dimless = any(f.dimension is measured.Number and e < 0 and f is not measured.One for u in (ua, ub) for f, e in u.factors.items())
-    if neg_dimless:
-        return "wrong-value:dimensionless-unit-with-negative-exponent"
+    if neg_dimless or len(dimless) >= 2:
+        # units of dimension Number are all filed under one key by the planner: which one stands in a
+        # denominator, and which kind (angle, solid angle, ...) it is, is lost
+        return "wrong-value:dimensionless-units"
     # the ton of refrigeration is declared twice (12000 BTU/h with the thermochemical BTU, and 3.51685 kW):
     # the two routes differ by 6.68e-4 per power of the unit
     tr = sum(abs(e) for u in (ua, ub) for f, e in u.factors.items() if f.name in ("ton of refrigeration", "boiler horsepower"))
